@@ -50,6 +50,14 @@ CHECKS = {
    "exhaustive over every diagnostic of covering programs on the real binary: format rules, append-own-code @ignore rerun, exit status grid",
    "Every diagnostic emitted by the real binary (both drivers) on covering programs is checked against the format rules and re-run with `// @ignore <code shown>` appended to its line; exit status of both text-mode drivers is compared with the number of printed diagnostics on programs with 0/1/many/suppressed diagnostics; the same format rules are applied to every diagnostic of an in-process sweep.",
    "documentation pages derived from the book's file names; output parsing by the harness", "2/C17"),
+ "C08": ("model_checking", "E1 + hook, E4 conformance",
+   "exhaustive enumeration of exclude-checks configurations through the real ConfigReader->IgnoreReader->checkers path, filtered-baseline oracle; conformance cells on the real binaries",
+   "Every configuration S in the enumerated family (quick: |S|<=2 over the 22 real tokens, all sub-chains ALL/category/code, junk, case/spacing, flag and env; thorough: all 2^22 subsets by cardinality under a time budget) is applied in-process through the real flag set / environment and the covering program's diagnostics must equal the baseline filtered by the hierarchy; a spread of configurations is replayed on the real binary and the vet driver.",
+   "hook VerifResetConfig only forgets the cached configuration; the flag set is re-created with config.CreateFlagSet exactly as package init does", "2/C08"),
+ "C15": ("model_checking", "E2 seqmc",
+   "exhaustive enumeration of bounded token sequences through the real annotation readers against a hand-written recogniser; exhaustive attachment matrix",
+   "All comment strings made of <=4 (quick) / <=5 (thorough) tokens over a 41-token alphabet (blanks, keywords, near-keywords, arguments, punctuation), several comment openers and an argument-focused extension are attached to type/field/func/method/body sites and read by the real ReadAllAnnotations / ReadIgnoreAnnotations; every field of the result is compared with a regexp-free reference recogniser; 21 attachment sites x 7 keywords decide where annotations take effect.",
+   "blank = space, tab, form feed, carriage return; shapes the documented grammar does not determine are listed under not_judged", "2/C15"),
 }
 
 NA_REASON = "check not built yet in this round (planned, see DESIGN.md section 2)"
@@ -82,9 +90,9 @@ def main():
             "add_only": True,
         },
         "engines": [
-            {"name": "E1 histmc", "path": "/verif/mc/internal/e1", "serves_properties": ["C01", "C02", "C03", "C04", "C07", "C12", "C13", "C17"],
+            {"name": "E1 histmc", "path": "/verif/mc/internal/e1", "serves_properties": ["C01", "C02", "C03", "C04", "C07", "C08", "C12", "C13", "C17"],
              "kind_free_text": "explicit-state search over declaration/statement histories; successor = history + one declaration, re-rendered and re-analysed by the real analyzers (checker.Analyze)"},
-            {"name": "E2 seqmc", "path": "/verif/mc/internal/checks", "serves_properties": ["C16", "C19", "C06"],
+            {"name": "E2 seqmc", "path": "/verif/mc/internal/checks", "serves_properties": ["C15", "C16", "C19", "C06"],
              "kind_free_text": "exhaustive enumeration of inputs / operation sequences through the public API against a boring reference model"},
             {"name": "E4 drvmc", "path": "/verif/mc/internal/drv", "serves_properties": ["C06", "C17"],
              "kind_free_text": "grid runner over the real executables (gogreement, go vet -vettool) on programs materialised in a tmpfs scratch directory; rebuilt from the working tree on every run"},
